@@ -167,6 +167,9 @@ structure Stream where
   inresetcode : Int := -1
   inbuf : List Nat := []       -- contents of s.inbuf (a snapshot of the aliased head chunk)
   inbufoff : Nat := 0
+  /-- `CloseRead` / `handleReset` released the pipe while bytes were still parked in `inbuf`:
+  the chunk `inbuf` aliases may have gone back to `pipebufPool` (its contents are then arbitrary). -/
+  inbufStale : Bool := false
   -- send side
   out : Pipe.Pipe := Pipe.empty
   outflushed : Int := 0
@@ -205,6 +208,7 @@ def pipeWrite (p : Pipe.Pipe) (b : List Nat) (off : Int) : Pipe.Pipe × Bool := 
 
 inductive ReadRes where
   | data (b : List Nat) (eof : Bool)
+  | stale (n : Nat)        -- fast-path read of `n` bytes out of a released chunk
   | eof
   | errReset | errClosed | errWriteOnly | blocked | panic
 deriving Repr, DecidableEq
@@ -215,11 +219,12 @@ def read (c : Conn) (s : Stream) (n : Nat) : Conn × Stream × ReadRes :=
   if s.inbuf.length > s.inbufoff then
     -- fast path
     let k := min n (s.inbuf.length - s.inbufoff)
-    (c, { s with inbufoff := s.inbufoff + k }, .data ((s.inbuf.drop s.inbufoff).take k) false)
+    (c, { s with inbufoff := s.inbufoff + k },
+      if s.inbufStale then .stale k else .data ((s.inbuf.drop s.inbufoff).take k) false)
   else
   if !s.canRead then (c, s, .blocked) else
   let s := if s.inbufoff > 0 then
-      { s with inp := Pipe.discardBefore s.inp (s.inp.start + s.inbufoff), inbufoff := 0, inbuf := [] }
+      { s with inp := Pipe.discardBefore s.inp (s.inp.start + s.inbufoff), inbufoff := 0, inbuf := [], inbufStale := false }
     else s
   if s.inresetcode ≠ -1 then (c, s, .errReset) else
   if s.inclosed.isSet then (c, s, .errClosed) else
@@ -288,7 +293,8 @@ def handleReset (c : Conn) (s : Stream) (code finalSize : Int) : Conn × Stream 
     else (c, 0)
   if err ≠ 0 then (c, s, err) else
   let c := c.bytesReadOnLoop (finalSize - s.inp.start)
-  let s := { s with inp := Pipe.discardBefore s.inp s.inp.stop, inresetcode := code, insize := finalSize }
+  let s := { s with inp := Pipe.discardBefore s.inp s.inp.stop, inresetcode := code, insize := finalSize,
+                    inbufStale := s.inbufStale || decide (s.inbuf.length > s.inbufoff) }
   (c, s, 0)
 
 /-- `Stream.CloseRead`. -/
@@ -297,7 +303,8 @@ def closeRead (c : Conn) (s : Stream) : Conn × Stream :=
   let s := if Rangeset.isrange s.inset 0 s.insize ∨ s.inresetcode ≠ -1
     then { s with inclosed := .received } else { s with inclosed := s.inclosed.set }
   let discarded := s.inp.stop - s.inp.start
-  let s := { s with inp := Pipe.discardBefore s.inp s.inp.stop }
+  let s := { s with inp := Pipe.discardBefore s.inp s.inp.stop,
+                    inbufStale := s.inbufStale || decide (s.inbuf.length > s.inbufoff) }
   (c.bytesReadOffLoop discarded, s)
 
 /-- `appendInFramesLocked`: STOP_SENDING and MAX_STREAM_DATA. -/
